@@ -420,7 +420,15 @@ def _gen_com(rng):
         data = [rng.randint(0, 1) for _ in range(n)]
     else:
         lo, hi = gen.dt_range(dtype)
-        data = [rng.randint(max(lo, -50), min(hi, 50)) for _ in range(n)]
+        if rng.random() < 0.45:
+            # values up to the dtype limits (capped at 2^40 so that every partial sum stays an exact double): the kernel
+            # must accumulate value*coordinate in double, not in the image dtype
+            cap = 2 ** 40
+            l2, h2 = max(lo, -cap), min(hi, cap)
+            data = [rng.choice([h2, l2, h2 - rng.randint(0, 9), rng.randint(l2, h2), rng.randint(max(lo, -50), min(hi, 50))])
+                    for _ in range(n)]
+        else:
+            data = [rng.randint(max(lo, -50), min(hi, 50)) for _ in range(n)]
     labels = _labels(rng, n) if rng.random() < 0.65 else None
     c = dict(fn='com', dtype=dtype, shape=shape, data=data, labels=labels,
              ldtype=rng.choice(['int32', 'int32', 'int64', 'uint8', 'uint16']), layout=rng.choice(gen.LAYOUTS),
